@@ -43,6 +43,53 @@ theorem use_keeps_flat_info (s : TreeState) (c d : Text) (h : ∀ e l, s.memo.lo
       | some l' => exact h d l' hd
       | none => rfl
 
+theorem find_map_name (g : ClassDecl → ClassDecl) (hg : ∀ k, (g k).name = k.name) (c : Text) : (l : List ClassDecl) →
+    (l.map g).find? (fun k => k.name = c) = (l.find? (fun k => k.name = c)).map g
+  | [] => rfl
+  | k :: l => by
+    simp only [List.map, List.find?, hg]
+    cases decide (k.name = c) with
+    | true => rfl
+    | false => exact find_map_name g hg c l
+
+/-- the decoder's member table of the class itself: after `c.append_field(f)` it contains `f`, however often the
+    class was used (instantiated, serialised, its flat type info read) before -/
+theorem decoder_member_table_knows_appended_member (s : TreeState) (c f : Text) (k : ClassDecl)
+    (hk : s.decls.find? (fun k => k.name = c) = some k) :
+    f ∈ (s.appendField factsHist c f).flatInfo c := by
+  rw [flat_info_after_append]
+  unfold TreeState.fresh TreeState.appendField
+  simp only [List.length_map]
+  have hlen : s.decls.length ≠ 0 := by
+    intro h
+    have : s.decls = [] := List.eq_nil_of_length_eq_zero h
+    rw [this] at hk; cases hk
+  obtain ⟨n, hn⟩ := Nat.exists_eq_succ_of_ne_zero hlen
+  rw [hn]
+  unfold flatOf
+  rw [find_map_name _ (by intro k; by_cases h : k.name = c <;> simp [h]) c s.decls, hk]
+  have hkc : k.name = c := by
+    have := List.find?_some hk
+    simpa using this
+  simp [hkc]
+
+/-- renamed members (sub_name / sub_ns): the wire-name table of a class contains every entry of its base —
+    so the decoder finds an ancestor's renamed member when it rebuilds a subclass instance, declared or named by
+    xsi:type, at any depth -/
+theorem ancestor_wire_names_known_to_subclass (d : List AltDecl) (n : Nat) (c : Text) (k : AltDecl) (b : Text)
+    (hk : d.find? (fun k => k.name = c) = some k) (hb : k.base = some b) (w m : Text)
+    (h : (w, m) ∈ altTable factsHist d n b) : (w, m) ∈ altTable factsHist d (n + 1) c := by
+  have hH : factsHist.altNamesInherited = true := by decide
+  simp only [altTable, hk, hb, hH, if_true, List.mem_append]
+  exact Or.inl h
+
+/-- and its own -/
+theorem own_wire_names_known (d : List AltDecl) (n : Nat) (c : Text) (k : AltDecl)
+    (hk : d.find? (fun k => k.name = c) = some k) (w m : Text) (h : (w, m) ∈ k.alts) :
+    (w, m) ∈ altTable factsHist d (n + 1) c := by
+  simp only [altTable, hk, List.mem_append]
+  exact Or.inr h
+
 /-! ### non-vacuity: Base <- Mid <- Leaf, all in use, then `Base.append_field("late")` -/
 def ex0 : TreeState := { decls := [⟨"Base".toList, none, ["a".toList]⟩, ⟨"Mid".toList, some "Base".toList, ["m".toList]⟩,
   ⟨"Leaf".toList, some "Mid".toList, ["l".toList]⟩] }
@@ -50,9 +97,14 @@ def warm : TreeState := ((ex0.use "Base".toList).use "Mid".toList).use "Leaf".to
 example : (warm.appendField factsHist "Base".toList "late".toList).flatInfo "Leaf".toList =
     ["a".toList, "late".toList, "m".toList, "l".toList] := by decide
 /-- with only the class's own memo entry dropped the subclasses keep their old member list -/
-example : (warm.appendField ⟨false⟩ "Base".toList "late".toList).flatInfo "Leaf".toList =
+example : (warm.appendField ⟨false, true, true⟩ "Base".toList "late".toList).flatInfo "Leaf".toList =
     ["a".toList, "m".toList, "l".toList] := by decide
-example : (warm.appendField ⟨false⟩ "Base".toList "late".toList).flatInfo "Base".toList =
+example : (warm.appendField ⟨false, true, true⟩ "Base".toList "late".toList).flatInfo "Base".toList =
     ["a".toList, "late".toList] := by decide
+
+def altEx : List AltDecl := [⟨"Base".toList, none, [("Renamed".toList, "r".toList)]⟩, ⟨"Mid".toList, some "Base".toList, []⟩,
+  ⟨"Leaf".toList, some "Mid".toList, []⟩]
+example : altTable factsHist altEx 3 "Leaf".toList = [("Renamed".toList, "r".toList)] := by decide
+example : altTable ⟨true, false, true⟩ altEx 3 "Leaf".toList = [] := by decide
 
 end SpyneModel.Props.C16history
